@@ -1,0 +1,10 @@
+//go:build !verif
+
+package qos
+
+// verifStep marks the points between the separate writes of SetSubscriberQoS (1: after the
+// egress bucket, 2: after the ingress bucket, before the subscriber table) and of
+// RemoveSubscriberQoS (3: after the egress delete, 4: after the ingress delete, before the
+// subscriber table). It does nothing unless the package is built with the verif tag (see
+// verif_hooks_steps.go).
+func (m *Manager) verifStep(point int) {}
